@@ -59,6 +59,10 @@ SEEDS = {
  'C13d': ('C13', 'backmp11 function_pointer_array dispatch: early `if constexpr (!has_transitions::value) return HANDLED_FALSE` ("every cell is empty")', 'opt-in function_pointer_array strategy, an event that is a trigger only inside a submachine: never forwarded (the forwarding cells are exactly the non-null ones)'),
  'C18d': ('C18', 'back dispatch_table init_event_base_case: non-Kleene rows are stored through the converting wrapper convert_event_and_forward (a sliced copy of the event)', 'a derived event taken by the only matching row whose trigger is its base class; observer looks at the dynamic type / derived payload'),
  'C16d': ('C16', 'back/back11 serialize_state: a submachine is archived only if its front-end has do_serialize or its history policy is not NoHistory ("reset on entry anyway")', 'nested submachine with NoHistory and no do_serialize, saved while active in a non-initial inner state / with opt-in state data inside'),
+ 'C01e': ('C01', 'backmp11 favor_compile_time state_dispatch_table::dispatch: consumed-test on the submachine result rewritten as equality with TRUE or DEFERRED (mixed codes such as 3 no longer stop the dispatch)', 'favor_compile_time, active submachine consuming with a mixed result (one region takes, a sibling rejects) and an outer row on the submachine'),
+ 'C04e': ('C04', 'back/back11 do_handle_prio_msg_queue_deferred_queue(true_): the two source checks merged - no queue drain after a re-offered deferred event', 'event_queue_before_deferred_queue policy; a deferred event whose handling submits an event, then a further external event'),
+ 'C05e': ('C05', 'back/back11 do_handle_deferred: std::stable_sort replaced by std::partition (not stable)', 'three or more deferred events, two on one side of the event that is handled in the re-offering pass'),
+ 'C06e': ('C06', 'back11 _irow_::execute returns HANDLED_GUARD_REJECT instead of HANDLED_TRUE ("only swallowed")', 'back11, internal row without action and guard: process_event answers without the handled bit'),
  'C13b': ('C13', 'backmp11 favor_runtime_speed needs_forward_transition: no longer looks into sub-submachines (a type computation)', 'three-level hierarchy, event only the innermost machine has rows for, middle machine does not mention it'),
  'C14a': ('C14', 'puml parse_row_right: action length clamped to 0 when the guard is written before the action list', 'a transition line of the form  A -> B : ev [guard] / action'),
  'C14c': ('C14', 'functor Internal<> rows with an action always answer HANDLED_TRUE (instead of get_functor_return_value<Action>)', 'state-local internal row whose action defers (Defer or a deferring sequence): answers TRUE, the back-end re-dispatches the deferred event at once'),
